@@ -354,24 +354,25 @@ theorem rebuildLeaves_cells (H : HashFn) (k index : Nat) : ∀ (cs : List Share)
         exact hpw.1 c'.ns (List.mem_map.mpr ⟨c', hc', rfl⟩))
     have hord : ltB c.ns hi = false := by
       have := hhi c (by simp); unfold leB at this; simpa using this
-    simp only [List.map_cons, rebuildLeaves, Flags.fixed, Bool.not_true, Bool.false_or]
-    by_cases hq : n < k ∧ index < k
-    · simp only [hq] at hrule
-      obtain ⟨hp, ns, hns⟩ := hrule
-      have hnseq : ns = c.ns := by
-        rw [fromRaw_eq hns]; simp [Share.ns, hp]
-      have hl : ¬ c.data.length < NS_SIZE := by omega
-      simp only [hq.1, hq.2, decide_true, Bool.and_self, ↓reduceIte, hl, hns, hnseq, hord, Bool.false_eq_true,
-        Share.leafHash]
-      rw [show ({ bindPos := true, nsFixed := true, capGuard := true } : Flags) = Flags.fixed from rfl, ih]
-    · simp only [hq, ↓reduceIte] at hrule
-      have hnseq : parityNs = c.ns := by simp [Share.ns, hrule]
-      have hcond : (decide (n < k) && decide (index < k)) = false := by
-        simp only [Bool.and_eq_false_iff, decide_eq_false_iff_not]
-        by_cases h1 : n < k
-        · right; exact fun h2 => hq ⟨h1, h2⟩
-        · left; exact h1
-      simp only [hcond, Bool.false_eq_true, ↓reduceIte, hnseq, hord, Share.leafHash]
-      rw [show ({ bindPos := true, nsFixed := true, capGuard := true } : Flags) = Flags.fixed from rfl, ih]
+    simp only [List.map_cons, rebuildLeaves]
+    have hleaf : leafNs Flags.fixed k index n c.data = .ok (some c.ns) := by
+      unfold leafNs
+      simp only [Flags.fixed, Bool.not_true, Bool.false_or]
+      by_cases hq : n < k ∧ index < k
+      · simp only [hq] at hrule
+        obtain ⟨hp, ns, hns⟩ := hrule
+        have hnseq : ns = c.ns := by
+          rw [fromRaw_eq hns]; simp [Share.ns, hp]
+        have hl : ¬ c.data.length < NS_SIZE := by omega
+        simp only [hq.1, hq.2, decide_true, Bool.and_self, ↓reduceIte, hl, hns, hnseq]
+      · simp only [hq, ↓reduceIte] at hrule
+        have hnseq : parityNs = c.ns := by simp [Share.ns, hrule]
+        have hcond : (decide (n < k) && decide (index < k)) = false := by
+          simp only [Bool.and_eq_false_iff, decide_eq_false_iff_not]
+          by_cases h1 : n < k
+          · right; exact fun h2 => hq ⟨h1, h2⟩
+          · left; exact h1
+        simp only [hcond, Bool.false_eq_true, ↓reduceIte, hnseq]
+    simp only [hleaf, hord, Bool.false_eq_true, ↓reduceIte, ih, Share.leafHash]
 
 end Lumina.Proofs.Befp
